@@ -110,6 +110,15 @@ var c12classes = []c12class{
 	{"range-non-rangeable-int", `{{range zq_i}}x{{end}}`, true, false},
 	{"range-non-rangeable-string", `{{range zq_s}}x{{end}}`, true, false},
 	{"range-nil", `{{range nil}}x{{end}}`, true, false},
+	{"range-one-var-non-rangeable-int", `{{range v := zq_i}}x{{end}}`, true, false},
+	{"range-two-var-non-rangeable-string", `{{range k, v := zq_s}}x{{end}}`, true, false},
+	{"range-one-var-nil", `{{range v := nil}}x{{end}}`, true, false},
+	{"range-assign-form-non-rangeable", `{{k := 0}}{{v := 0}}{{range k, v = zq_st}}x{{end}}`, true, false},
+	{"range-one-var-nil-pointer", `{{range v := zq_nilp}}x{{else}}e{{end}}`, true, false},
+	{"slice-open-end-start-past-len", `{{ zq_xs[4:] }}`, true, false},
+	{"slice-open-end-start-past-len-string", `{{ zq_s[9:] }}`, true, false},
+	{"slice-open-end-start-far", `{{ zq_xs[70:] }}`, true, false},
+	{"slice-open-end-start-past-len-variable", `{{ zq_xs[zq_i:] }}`, true, false},
 	{"range-nil-pointer", `{{range zq_nilp}}x{{end}}`, true, false},
 	{"range-two-var-no-index", `{{range k, v := zq_ch}}x{{end}}`, true, false},
 	{"yield-arg-without-value", `{{yield zq_blk(q)}}`, true, false},
